@@ -49,3 +49,45 @@ Definition scheck (d : nat) (tol : Q) (c : scase d) : bool * Z :=
         let r := qrel_list tol (tflat d x') (sc_ox c) (map negb fm) in
         (neq_list (tshape d x') (sc_oshape c) && beq_list fm (sc_omk c) && fst r, snd r)
   end.
+
+(** ** mask-only evaluation of Spectrum.project (large sample sizes)
+    The mask of [project] never depends on the data (only on its shape), and the mask coefficients [pmask] are the
+    cheap window test; running [project] on Q recomputes three binomials per (target, source) pair, which is not
+    affordable for sample sizes in the hundreds.  [project_mask] is the mask component alone, reading the sample
+    sizes off the mask array; Proofs/ProjMaskOnly.v proves it equal to the mask [project] returns
+    ([project_mask_is_project]), so comparing the implementation's mask with [project_mask] is comparing it with the model. *)
+Fixpoint mask_loop (d ax : nat) (ns orig : list nat) (mk : tens bool d) : option (tens bool d) :=
+  match ns, orig with
+  | [], _ => Some mk
+  | m :: ns', n :: orig' =>
+      if (m =? n)%nat then mask_loop d (S ax) ns' orig' mk
+      else if (n <? m)%nat then None
+      else mask_loop d (S ax) ns' orig' (proj_axis false orb d ax (pmask n m) m mk)
+  | _ :: _, [] => None
+  end.
+
+Definition project_mask (d : nat) (ns : list nat) (folded : bool) (mk : tens bool d) : option (tens bool d) :=
+  let ss := sample_sizes d mk in
+  if negb (length ns =? d)%nat then None
+  else if existsb (fun p => (snd p <? fst p)%nat) (combine ns ss) then None
+  else
+    let m0 := if folded then unfold_mask d mk else mk in
+    match mask_loop d 0 ns ss m0 with
+    | None => None
+    | Some m1 => Some (if folded then fold_mask d m1 else m1)
+    end.
+
+Record mcase (d : nat) := {
+  mc_ns : list nat; mc_folded : bool; mc_mk : tens bool d;
+  mc_raises : bool; mc_oshape : list nat; mc_omk : list bool   (* implementation: raised?, output shape, flat output mask *)
+}.
+Arguments mc_ns {d}. Arguments mc_folded {d}. Arguments mc_mk {d}. Arguments mc_raises {d}.
+Arguments mc_oshape {d}. Arguments mc_omk {d}.
+
+Definition mcheck (d : nat) (c : mcase d) : bool * Z :=
+  match project_mask d (mc_ns c) (mc_folded c) (mc_mk c) with
+  | None => (mc_raises c, (-10000)%Z)
+  | Some mk' =>
+      if mc_raises c then (false, 0%Z)
+      else (neq_list (tshape d mk') (mc_oshape c) && beq_list (tflat d mk') (mc_omk c), (-10000)%Z)
+  end.
